@@ -5,5 +5,10 @@ package cache
 // Contracts for the verifier in /verif (comment-only).
 
 /*@
+// What a cache answers is a function of the cache and the key (pathhas/pathval,
+// /verif/contracts/spec/history.spec). ASSUMED; it holds as long as nobody writes the
+// cache between two reads, which is the case for the audit path of a proof under verification.
 func Cache.Get
+  assumes result_1 == pathhas(self, bytes(key))
+  assumes result_1 ==> bytes(result_0) == pathval(self, bytes(key))
 @*/
